@@ -109,9 +109,23 @@ static int startup_batch(const std::string& listfile) {
         fflush(stdout);
         try {
             simulation_initializer sim_init(xml, false);
+            // an input that start-up accepts must have been turned into cells the solver can work on: closed surfaces whose bookkeeping
+            // agrees with their triangle lists (combinatorial clauses only: a mutated coordinate may legitimately flatten or invert a cell)
+            std::string broken;
+            for (auto& c : sim_init.get_cell_lst()) {
+                if (!c) {
+                    broken = "a null cell";
+                    break;
+                }
+                ct::TopoOpts o;
+                o.check_cached_normals = false, o.check_positive_volume = false;
+                std::string t = c->get_nb_of_faces() < 4 ? std::string("fewer than 4 faces") : ct::topo_check(*c, o);
+                if (!t.empty() && broken.empty()) broken = t;
+            }
             for (auto& c : sim_init.get_cell_lst())
                 if (c) c->clear_data();
-            printf("DONE %zu completed\n", i);
+            if (broken.empty()) printf("DONE %zu completed\n", i);
+            else printf("DONE %zu broken start-up completed without diagnosing the input but handed over %s\n", i, broken.substr(0, 160).c_str());
         } catch (std::exception const& e) {
             std::string w = e.what();
             for (auto& ch : w)
